@@ -213,7 +213,7 @@ func (x *Exec) next(fr *Frame, st *State, ins *ssa.Next) Value {
 	k := m.fresh("next.k", ks)
 	dom := m.def("dom", arrSort(ks, SBool), x.mapDom(st, mv))
 	x.assumeAt(st, Implies(ok, And(Not(Eq(mv.Ref, NilRef)), Select(dom, k), Not(Select(vis.T, k)))))
-	x.assumeAt(st, Implies(Not(ok), Or(Eq(mv.Ref, NilRef), fmt.Sprintf("(forall ((q %s)) (! (=> (select %s q) (select %s q)) :pattern ((select %s q))))", ks, dom, vis.T, vis.T))))
+	x.assumeAt(st, Implies(Not(ok), Or(Eq(mv.Ref, NilRef), fmt.Sprintf("(forall ((q %s)) (=> (select %s q) (select %s q)))", ks, dom, vis.T))))
 	st.ghost[g] = ArrayV{T: m.def("vis", vis.Sort, Ite(ok, Store(vis.T, k, "true"), vis.T)), Sort: vis.Sort, Key: mt.Key()}
 	kv := x.keyValue(mt.Key(), k)
 	if kt := tt.At(1).Type(); kt != nil {
@@ -424,8 +424,8 @@ func (x *Exec) copyStructElems(st *State, elem types.Type, sv, xv SliceV, arr Te
 	for _, fa := range fas {
 		A := x.arr(st, fa.name, fa.sort)
 		newRef := refAt(arr, "j", fa.path)
-		m.assume(fmt.Sprintf("(forall ((j Int)) (! (=> (and (<= 0 j) (< j %s)) (= (select %s %s) (select %s %s))) :pattern ((select %s %s))))",
-			svLen, A, newRef, A, refAt(sv.Arr, addT(svOff, "j"), fa.path), A, newRef))
+		m.assume(fmt.Sprintf("(forall ((j Int)) (=> (and (<= 0 j) (< j %s)) (= (select %s %s) (select %s %s))))",
+			svLen, A, newRef, A, refAt(sv.Arr, addT(svOff, "j"), fa.path)))
 		if xv.Len == "1" || xv.Len == IntLit(1) {
 			m.assume(Eq(Select(A, refAt(arr, svLen, fa.path)), Select(A, refAt(xv.Arr, xv.Off, fa.path))))
 		} else {
